@@ -292,7 +292,38 @@ fn gen_scenario(rng: &mut Rng, thorough: bool, n_ops: usize) -> Option<(Scenario
     cfg.event_then = true;
     cfg.script_weight = 20;
     let burst = rng.chance(1, 4);
-    let program = if burst {
+    let join_family = !burst && rng.chance(1, 5);
+    let program = if join_family {
+        // a task waiting on several requests at once (join / select), possibly inside wrappers:
+        // resolving two of them from two threads is where a task's last waker changes hands
+        let k = rng.range(2, 3) as u32;
+        let sites: Vec<u32> = (1..=k).collect();
+        let mut instrs = vec![];
+        if rng.chance(1, 2) {
+            instrs.push(Instr::Emit { tag: 90, reg: None });
+        }
+        instrs.push(if rng.chance(3, 4) { Instr::JoinAll { sites } } else { Instr::Select { sites } });
+        instrs.push(Instr::Emit { tag: 91, reg: Some(0) });
+        instrs.push(Instr::Req { site: 50, arg: None });
+        let mut c = Cmd::Async(Script { instrs });
+        for layer in 0..rng.below(3) {
+            c = match rng.below(4) {
+                0 => Cmd::MapEvent(Box::new(c), 9),
+                1 => Cmd::All(vec![c, Cmd::Notify(60 + layer as u32)]),
+                2 => Cmd::Then(Box::new(Cmd::Done), Box::new(c)),
+                _ => Cmd::MapEffect(Box::new(c), 11),
+            };
+        }
+        if legacy {
+            // the legacy API runs scripts only
+            match c {
+                Cmd::Async(_) => c,
+                _ => Cmd::Async(Script { instrs: vec![Instr::JoinAll { sites: vec![1, 2] }, Instr::Emit { tag: 91, reg: Some(0) }, Instr::Req { site: 50, arg: None }] }),
+            }
+        } else {
+            c
+        }
+    } else if burst {
         // a task that emits a burst of events (some of which start follow-up programs) right
         // after a request, so that several threads find events to apply at the same time
         let n = rng.range(3, 9);
@@ -352,6 +383,7 @@ fn gen_scenario(rng: &mut Rng, thorough: bool, n_ops: usize) -> Option<(Scenario
         for _ in 0..n_ops {
             let choice = if burst && !ops.is_empty() { rng.below(2) } else { rng.below(20) };
             let choice = if burst && ops.is_empty() { 10 } else { choice };
+            let choice = if join_family && rng.chance(4, 5) { 10 } else { choice };
             let op = match choice {
                 0 => Some(ConcOp::View),
                 1 => Some(ConcOp::Act(Action::Noop)),
